@@ -1,4 +1,5 @@
 import ShellOp.Proofs.Patch
+import ShellOp.Generated.Facts
 /-!
 # C13 — patch file: validated as a whole, applied in order, JSON and YAML agree
 
@@ -285,6 +286,39 @@ theorem calls_bounded (pf : PatchFn) (op : Op) (c : Cluster) :
             · simp
             · split <;> simp
         · simp
+
+/-! ## the source tables the model documents (tie T1: regenerated from `operation.go` on every run) -/
+
+/-- `NewFromOperationSpec`: one constructor per documented operation name; only the three patch
+operations forward `subresource`, `ignoreMissingObject`, `ignoreHookError` (creates and deletes take
+no option — the model's `Op.create` has no subresource, `Op.delete` always carries `sub = 0`). -/
+theorem operation_table :
+    ShellOp.Facts.c13OperationTable =
+      [("Create", "NewCreateOperation", []),
+       ("CreateIfNotExists", "NewCreateIfNotExistsOperation", []),
+       ("CreateOrUpdate", "NewCreateOrUpdateOperation", []),
+       ("Delete", "NewDeleteOperation", []),
+       ("DeleteInBackground", "NewDeleteInBackgroundOperation", []),
+       ("DeleteNonCascading", "NewDeleteNonCascadingOperation", []),
+       ("JQPatch", "NewPatchWithJQOperation", ["WithSubresource", "withIgnoreMissingObject", "withIgnoreHookError"]),
+       ("MergePatch", "NewMergePatchOperation", ["WithSubresource", "withIgnoreMissingObject", "withIgnoreHookError"]),
+       ("JSONPatch", "NewJSONPatchOperation", ["WithSubresource", "withIgnoreMissingObject", "withIgnoreHookError"])] ∧
+    ShellOp.Facts.c13FactsStale = false := by decide
+
+/-- The three delete propagation modes: Delete = Foreground, DeleteInBackground = Background,
+DeleteNonCascading = Orphan. -/
+theorem delete_propagation_table :
+    ShellOp.Facts.c13DeletePropagation =
+      [("NewDeleteOperation", "metav1.DeletePropagationForeground"),
+       ("NewDeleteInBackgroundOperation", "metav1.DeletePropagationBackground"),
+       ("NewDeleteNonCascadingOperation", "metav1.DeletePropagationOrphan")] := by decide
+
+/-- The three create variants: Create sets no flag, CreateOrUpdate sets `updateIfExists`,
+CreateIfNotExists sets `ignoreIfExists`. -/
+theorem create_flags_table :
+    ShellOp.Facts.c13CreateFlags =
+      [("Create", []), ("CreateOrUpdate", ["op.updateIfExists=true"]),
+       ("CreateIfNotExists", ["op.ignoreIfExists=true"])] := by decide
 
 /-! ## non-vacuity and witnesses -/
 
